@@ -88,12 +88,14 @@ fn inc(x: u64) -> u64 { x.wrapping_add(1) }
 
 #[inline(never)] pub fn t54(a: u64, b: u64) -> u64 { use std::cmp::Ordering; let x = (a % 7) as u8; let y = (b % 7) as u8; let o = x.cmp(&y); let r = match o { Ordering::Less => 1u64, Ordering::Equal => 2, Ordering::Greater => 3 }; let s = small(a); let m = s.iter().copied().max_by(|p, q| (p % 4).cmp(&(q % 4))).unwrap_or(9); let n = s.iter().copied().min_by(|p, q| (p % 4).cmp(&(q % 4))).unwrap_or(9); let mut t = s; t.sort_by(|p, q| q.cmp(p)); r + 10 * u64::from(std::cmp::max(x, y)) + 100 * u64::from(std::cmp::min(x, y)) + 1000 * u64::from(m) + 10_000 * u64::from(n) + 100_000 * t.iter().fold(0u64, |acc, &e| acc * 8 + u64::from(e)) + 100_000_000_000 * u64::from(o.reverse() == Ordering::Less) + 1_000_000_000_000 * u64::from(o.is_ge()) + 10_000_000_000_000 * u64::from((a as i16).cmp(&(b as i16)) == Ordering::Less) + 100_000_000_000_000 * u64::from(x.partial_cmp(&y) == Some(Ordering::Greater)) }
 
+#[inline(never)] pub fn t55(a: u64, b: u64) -> u64 { let s = small(a); let r: Result<u64, u8> = s.iter().try_fold(b % 5, |acc, &x| if x == 7 { Err(x) } else { Ok(acc * 3 + u64::from(x)) }); let o: Option<u64> = Some(small(b).to_vec()).iter().flatten().try_fold(1u64, |acc, &x| if x == 0 { None } else { Some(acc * u64::from(x) % 1009) }); (match r { Ok(v) => v % 100_000, Err(e) => 900_000 + u64::from(e) }) + 1_000_000 * o.unwrap_or(777) }
+
 fn main() {
     let args: Vec<String> = std::env::args().collect();
     let id: usize = args[1].parse().unwrap();
     let a: u64 = args[2].parse().unwrap();
     let b: u64 = args[3].parse().unwrap();
-    let fs: [fn(u64, u64) -> u64; 55] = [t00, t01, t02, t03, t04, t05, t06, t07, t08, t09, t10, t11, t12, t13, t14, t15, t16, t17, t18, t19, t20, t21, t22, t23, t24, t25, t26, t27, t28, t29, t30, t31, t32, t33, t34, t35, t36, t37, t38, t39, t40, t41, t42, t43, t44, t45, t46, t47, t48, t49, t50, t51, t52, t53, t54];
+    let fs: [fn(u64, u64) -> u64; 56] = [t00, t01, t02, t03, t04, t05, t06, t07, t08, t09, t10, t11, t12, t13, t14, t15, t16, t17, t18, t19, t20, t21, t22, t23, t24, t25, t26, t27, t28, t29, t30, t31, t32, t33, t34, t35, t36, t37, t38, t39, t40, t41, t42, t43, t44, t45, t46, t47, t48, t49, t50, t51, t52, t53, t54, t55];
     let r = std::panic::catch_unwind(|| fs[id](a, b));
     match r { Ok(v) => println!("OK {v}"), Err(_) => println!("PANIC") }
 }
